@@ -111,6 +111,7 @@ def run(rep, tier):
     rep.rule('R10.3', 'reset covers the run state: every member the engines\' step() mutates across steps is re-initialised by reset() (scratch cleared at the top of step() and the current event excepted); every queue/stepper handle of InterpreterImpl is reset')
     rep.rule('R10.4', 'cancel protocol: the cancel mark is set before the unblocking event is enqueued; the step that dequeues no external event reaches the cancel test before returning')
     rep.rule('R10.5', 'bounded teardown: a thread root of the form while(flag) dispatch() is woken with a sticky primitive after the flag is cleared; no join under a lock the joined thread takes (lock-order cycles through T(root)); destructors stop users before freeing what they use')
+    rep.rule('R10.7', 'cancel() leads to finished whatever the chart does: in both engines every start of a microstep (the spontaneous branch and the dequeue from the internal queue) is only reached past a test of _isCancelled, not just the point where the external queue ran empty')
     rep.rule('R10.6', 'shared fields: every field of the anchored classes that is written and reachable from two thread roots is accessed under one common mutex, or is in the confirmed table of unprotected flags')
     rep.assume('"a reset interpreter behaves like a fresh one" beyond the coverage of R10.3 is not decided')
     c = _conc.Conc()
@@ -194,66 +195,132 @@ def run(rep, tier):
     if not fwd0:
         raise AnalysisBroken('Interpreter::receive does not forward to InterpreterImpl')
     entries = [fwd0[0], 'uscxml::InterpreterImpl::cancel', 'uscxml::InterpreterImpl::reset', 'uscxml::InterpreterImpl::~InterpreterImpl']
-    nuses = 0
-    for q in entries:
-        f = fb.fn(q)
-        g = cfgm.CFG(f)
-        dom = g.dominators()
+    # a handle the constructor creates is never null
+    ctor_made = set()
+    for f_ in fb.funcs.values():
+        if f_.q == 'uscxml::InterpreterImpl::InterpreterImpl':
+            for x in f_.walk():
+                if x['k'] == 'CXXOperatorCallExpr' and x.get('op') == '=' and x.get('c') and len(x['c']) > 1:
+                    ctor_made |= {y['ref'].get('name') for y in sub(x['c'][1]) if y['k'] == 'MemberExpr'} & handles
+            for i_ in f_.d.get('inits', []):
+                if i_.get('field') in handles and isinstance(i_.get('init'), dict) and any(y['k'] == 'CXXNewExpr' for y in sub(i_['init'])):
+                    ctor_made.add(i_['field'])
+    from .C08 import edge_dominates
+
+    def guarded_at(f, g, dom, tb, h):
+        """is block tb of f only reached with handle h known non-null (true edge of its test, or after `if (!h) { create / init }`)"""
+        for bid, b in g.blocks.items():
+            cnd = b.get('cond')
+            if cnd is None or cnd not in f.nodes:
+                continue
+            cn = strip(f.nodes[cnd])
+            neg = False
+            while cn['k'] == 'UnaryOperator' and cn.get('op') == '!':
+                neg = not neg
+                cn = strip(cn['c'][0])
+            tests = cn['k'] == 'CXXMemberCallExpr' and cn['callee']['q'].split('::')[-1].startswith('operator bool') and any(
+                x['k'] == 'MemberExpr' and x['ref'].get('name') == h for x in sub(cn))
+            if not tests:
+                continue
+            if not neg and edge_dominates(g, bid, True, tb):
+                return True
+            if neg:
+                # if (!H) { create / init }  : the use is after the join and the then-branch assigns H or calls init()
+                then_blocks = [s_ for s_, lab in g.succ_labeled(bid) if lab is True]
+                creates = False
+                for tbk in then_blocks:
+                    for bb in g.reachable_blocks(tbk):
+                        for el in g.blocks[bb]['el']:
+                            x = f.nodes.get(el)
+                            if not x:
+                                continue
+                            if x.get('callee', {}).get('q') == 'uscxml::InterpreterImpl::init':
+                                creates = True
+                            if x['k'] == 'CXXOperatorCallExpr' and x.get('op') == '=' and any(y['k'] == 'MemberExpr' and y['ref'].get('name') == h for y in sub(x['c'][1])):
+                                creates = True
+                if creates and bid in dom.get(tb, ()):
+                    return True
+        return False
+
+    def handle_uses(f):
+        """(call node, handle, method) for every use of a facade handle in f"""
+        out = []
         for n in f.walk():
             if n['k'] != 'CXXMemberCallExpr' or not n.get('c'):
                 continue
             me = n['c'][0]
             base = strip(me['c'][0]) if me.get('c') else None
-            if not base or base['k'] != 'MemberExpr' or base['ref'].get('name') not in handles:
+            if not base or base['k'] != 'MemberExpr' or base['ref'].get('name') not in handles or base['ref'].get('name') in ctor_made:
                 continue
             meth = n['callee']['q'].split('::')[-1]
             if meth.startswith('operator bool') or meth == 'operator=':
                 continue
-            h = base['ref']['name']
+            out.append((n, base['ref']['name'], meth))
+        return out
+    cfgs = {}
+
+    def cfg_of(f):
+        if f.m not in cfgs:
+            g_ = cfgm.CFG(f)
+            cfgs[f.m] = (g_, g_.dominators())
+        return cfgs[f.m]
+
+    def unguarded_in(f):
+        g_, dom_ = cfg_of(f)
+        return [(n, h, m_) for n, h, m_ in handle_uses(f) if n['id'] in g_.pos and not guarded_at(f, g_, dom_, g_.pos[n['id']][0], h)]
+    # enqueueExternal is an entry of its own: the SCXML I/O processor calls it on OTHER sessions, which may never have been stepped
+    foreign = sorted({n['callee']['q'] for f_ in fb.funcs.values() if not f_.q.startswith('uscxml::InterpreterImpl::') and not f_.q.startswith('uscxml::Interpreter::')
+                      for n in f_.walk() if n['k'] == 'CXXMemberCallExpr' and n.get('callee', {}).get('q', '') in ('uscxml::InterpreterImpl::enqueueExternal', 'uscxml::InterpreterImpl::enqueueInternal')
+                      and n.get('c') and n['c'][0].get('c') and strip(n['c'][0]['c'][0])['k'] != 'CXXThisExpr' and 'InterpreterImpl' in (strip(n['c'][0]['c'][0]).get('t') or '')})
+    entries += [q_ for q_ in foreign if q_ not in entries]
+    nuses = 0
+    for q in entries:
+        f = fb.fn(q)
+        g, dom = cfg_of(f)
+        sites = []     # (node in the entry, handle, method, via)
+        for n, h, meth in handle_uses(f):
+            sites.append((n, h, meth, None))
+        # one level of own helpers: what a helper uses unguardedly is used at its call site
+        for n in f.walk():
+            cq = n.get('callee', {}).get('q', '')
+            if n['k'] == 'CXXMemberCallExpr' and cq.startswith('uscxml::InterpreterImpl::') and cq != 'uscxml::InterpreterImpl::init' and cq != q and n.get('c') and n['c'][0].get('c') and strip(n['c'][0]['c'][0])['k'] == 'CXXThisExpr':
+                hf = fb.fn(cq, required=False)
+                if hf is None:
+                    continue
+                for n2, h, meth in unguarded_in(hf):
+                    sites.append((n, h, meth, cq.split('::')[-1]))
+        for n, h, meth, via in sites:
             nuses += 1
             if n['id'] not in g.pos:
                 continue
-            tb = g.pos[n['id']][0]
-            guarded = False
-            # (a) dominated by the true edge of a test of the same handle
-            for bid, b in g.blocks.items():
-                cnd = b.get('cond')
-                if cnd is None or cnd not in f.nodes:
-                    continue
-                cn = strip(f.nodes[cnd])
-                neg = False
-                while cn['k'] == 'UnaryOperator' and cn.get('op') == '!':
-                    neg = not neg
-                    cn = strip(cn['c'][0])
-                tests = cn['k'] == 'CXXMemberCallExpr' and cn['callee']['q'].split('::')[-1].startswith('operator bool') and any(
-                    x['k'] == 'MemberExpr' and x['ref'].get('name') == h for x in sub(cn))
-                if not tests:
-                    continue
-                from .C08 import edge_dominates
-                if not neg and edge_dominates(g, bid, True, tb):
-                    guarded = True
-                if neg:
-                    # if (!H) { create / init }  : the use is after the join and the then-branch assigns H or calls init()
-                    then_blocks = [s for s, lab in g.succ_labeled(bid) if lab is True]
-                    creates = False
-                    for tbk in then_blocks:
-                        for bb in g.reachable_blocks(tbk):
-                            for el in g.blocks[bb]['el']:
-                                x = f.nodes.get(el)
-                                if not x:
-                                    continue
-                                if x.get('callee', {}).get('q') == 'uscxml::InterpreterImpl::init':
-                                    creates = True
-                                if x['k'] == 'CXXOperatorCallExpr' and x.get('op') == '=' and any(y['k'] == 'MemberExpr' and y['ref'].get('name') == h for y in sub(x['c'][1])):
-                                    creates = True
-                    if creates and bid in dom.get(tb, ()):
-                        guarded = True
-            rep.check(guarded, 'R10.2', '%s|%s.%s' % (q.split('::')[-1], h, meth), locstr(n),
-                      '%s uses handle %s (null until init()): %s' % (q.split('::')[-1], h, 'guarded by its test / created on demand' if guarded else 'UNGUARDED - crashes on an interpreter that was never stepped'))
+            guarded = guarded_at(f, g, dom, g.pos[n['id']][0], h)
+            rep.check(guarded, 'R10.2', '%s|%s.%s%s' % (q.split('::')[-1], h, meth, '' if via is None else '@' + via), locstr(n),
+                      '%s uses handle %s%s (null until init()): %s' % (q.split('::')[-1], h, '' if via is None else ' through ' + via, 'guarded by its test / created on demand' if guarded else 'UNGUARDED - crashes on an interpreter that was never stepped'))
+    rep.ok('R10.2', 'constructor-made handles', 'created by the constructor, never null: %s; entries: %s' % (sorted(ctor_made) or 'none', ', '.join(e_.split('::')[-1] for e_ in entries)))
     rep.minimum('R10.2', nuses, 5, 'handle uses in the pre-init API entries')
 
     # ---- R10.3
     reset_coverage(rep, fb, 'R10.3')
+    # the same for the interpreter object: what the callbacks of a run write is given back by reset()
+    CONFIG_API = {'InterpreterImpl', '~InterpreterImpl', 'init', 'reset', 'deserialize', 'serialize', 'setActionLanguage', 'getActionLanguage', 'setFactory',
+                  'addMonitor', 'removeMonitor', 'setupDOM', 'on', 'receive', 'cancel', 'cloneFrom'}
+    run_state = {}
+    for m in fb.funcs.values():
+        if m.rec == impl and m.q.split('::')[-1] not in CONFIG_API:
+            for name, node in written_members(m, impl).items():
+                run_state.setdefault(name, (node, set()))[1].add(m.q.split('::')[-1])
+    rs_impl = fb.fn('uscxml::InterpreterImpl::reset')
+    rwr_impl = set(written_members(rs_impl, impl))
+    for n in rs_impl.walk():
+        cq = n.get('callee', {}).get('q', '')
+        if n['k'] == 'CXXMemberCallExpr' and cq.startswith(impl + '::') and cq != rs_impl.q and n.get('c') and n['c'][0].get('c') and strip(n['c'][0]['c'][0])['k'] == 'CXXThisExpr':
+            hf = fb.fn(cq, required=False)
+            if hf is not None:
+                rwr_impl |= set(written_members(hf, impl))
+    rep.minimum('R10.3', len(run_state), 5, 'members of InterpreterImpl written while a run executes')
+    for name, (node, writers) in sorted(run_state.items()):
+        rep.check(name in rwr_impl, 'R10.3', 'InterpreterImpl|%s' % name, locstr(node), 'member %s is written while a run executes (%s) and %s by InterpreterImpl::reset()' % (
+            name, ', '.join(sorted(writers)), 're-initialised' if name in rwr_impl else 'NOT touched: the run after reset() starts with what the previous run left there (data model variables, _event, running invocations that keep sending)'))
     rs = fb.fn('uscxml::InterpreterImpl::reset')
     reset_calls = {strip(n['c'][0]['c'][0])['ref']['name'] for n in rs.walk() if n['k'] == 'CXXMemberCallExpr' and n['callee']['q'].split('::')[-1] == 'reset' and n.get('c') and n['c'][0].get('c') and strip(n['c'][0]['c'][0])['k'] == 'MemberExpr'}
     for h in sorted(handles):
@@ -286,6 +353,19 @@ def run(rep, tier):
         canc_ids = {n['id'] for n in f.walk() if n['k'] == 'MemberExpr' and n['ref'].get('name') == '_isCancelled'}
         w = g.can_reach((false_succ[0], -1), ['EXIT'], avoid=canc_ids)
         rep.check(w is None, 'R10.4', eq.split('::')[1] + '|cancel-test-after-empty-dequeue', locstr(ext), 'after dequeueExternal returned no event every path tests _isCancelled before returning: %s' % (w is None))
+        # R10.7: a macrostep need not end (eventless loop, <raise> loop): the flag is looked at before every selection of transitions
+        sel = [n for n in f.walk() if n.get('callee', {}).get('q') == 'uscxml::MicroStepCallbacks::dequeueInternal' and n['id'] in g.pos]
+        n_deq = len(sel)
+        for n in f.walk():
+            if n['k'] == 'IfStmt' and any(m[0] == 'USCXML_CTX_SPONTANEOUS' for x in sub(n['c'][0]) for m in (x.get('mac') or [])) and not any(
+                    m[0] == 'USCXML_CTX_PRISTINE' for x in sub(n['c'][0]) for m in (x.get('mac') or [])) and n['c'][1] is not None:
+                sel += [x for x in sub(n['c'][1]) if x['id'] in g.pos][:1]
+        rep.minimum('R10.7', len(sel), 2, 'microstep starts in %s (spontaneous branch, internal dequeue)' % eq.split('::')[1])
+        for k7, n in enumerate(sel):
+            w7 = g.can_reach(g.entry_pos(), [n['id']], avoid=canc_ids)
+            what = 'internal dequeue' if k7 < n_deq else 'spontaneous branch'
+            rep.check(w7 is None, 'R10.7', '%s|%s' % (eq.split('::')[1], what), locstr(n), 'the %s of step() is %s' % (what, 'only reached past a test of _isCancelled' if w7 is None else
+                      'reached WITHOUT looking at _isCancelled: while eventless transitions stay enabled or the internal queue is fed, cancel() is never honoured - step() returns MICROSTEPPED for ever, USCXMLInvoker::stop() joins a thread that never ends'))
 
     # ---- R10.5
     dq = 'uscxml::BasicDelayedEventQueue'
@@ -323,7 +403,8 @@ def run(rep, tier):
         return n.startswith(CORE)
     # cycles of the interpreter core (API, timer and invoker threads) that involve a join or the life-cycle mutex;
     # cycles through the HTTP server, debugger, URL fetcher or dirmon invoker are outside this property
-    core_cycles = [cy for cy in c.minimal_cycles() if all(core(n) for n in cy) and any(n.startswith('T(') or '_serializationMutex@' in n for n in cy)]
+    # ... or a libevent callback pseudo-lock: reset() and the destructor cancel pending timers with the blocking event_del
+    core_cycles = [cy for cy in c.minimal_cycles() if all(core(n) for n in cy) and any(n.startswith('T(') or n.startswith('CB(') or '_serializationMutex@' in n for n in cy)]
     mine = core_cycles
     for cy in core_cycles:
         w = c.witnesses(cy)
